@@ -121,9 +121,9 @@ def envOf (tb : Tables) (c : Case) (cfg : Cfg) : Env := { cfg := cfg, schema := 
 
 def cfgCur (tb : Tables) : Cfg :=
   { skipTable := tb.skip, opFallbackAnyName := tb.opFallbackAnyName, argCountCheckOnly := tb.argCountCheckOnly,
-    dupKeyOverwrites := tb.dupKeyOverwrites, condByIdentity := tb.condByIdentity }
+    dupKeyOverwrites := tb.dupKeyOverwrites, condByIdentity := tb.condByIdentity, anonAmongOthers := tb.anonAmongOthers }
 
 def runModel (tb : Tables) (c : Case) (cfg : Cfg) : T :=
-  encResp (run (envOf tb c cfg) c.ops c.opName c.rootNode (rootTy c))
+  encResp (request (envOf tb c cfg) c.ops c.opName c.rootNode (rootTy c))
 
 end Ggql.Driver.WalkWire
